@@ -414,7 +414,11 @@ def run(ctx, br):
     inproc = os.path.join(work, "inproc")
     order = [(p, g) for p in programs for g in gens]
     rng.shuffle(order)
-    order = order[:(12 if quick else 60)]
+    # every language once on ONE program, back to back (and, through the reversed second half of the
+    # sequence, in the opposite order too): a generator that edits the parse tree, or a parse cache
+    # that outlives a compile, shows up as a difference from the fresh-process output
+    forced = [(programs[0], g) for g in ("java", "go", "html", "dart:use_vendor", "py", "json:indent") if g in gens]
+    order = forced + [x for x in order if x not in forced][:(8 if quick else 54)]
     # a few non-recursive compiles in between (Recurse must not leak from the compile before);
     # their reference output comes from a fresh non-recursive process
     nonrec = order[:3]
@@ -435,6 +439,36 @@ def run(ctx, br):
         seq_jobs.append({"file": os.path.join(prog["rootA"], prog["main"]), "gen": gen, "out": o, "recurse": rec,
                          "cwd": work, "cleanup": True})
         seq_keys.append((prog["id"], gen) if rec else (prog["id"], gen, "nonrec"))
+    # the content of a path changes between two compiles of the same process: compile a private copy of
+    # program 0, append a declaration to its main file, compile again; the reference is a fresh process
+    # run on the changed content
+    swap_root = os.path.join(work, "swap_src")
+    write_program(programs[0], swap_root)
+    swap_main = os.path.join(swap_root, programs[0]["main"])
+    added = "\nstruct ZzAddedLater {\n    1: i32 a\n}\n"
+    ref_root = os.path.join(work, "swap_ref")
+    write_program(programs[0], ref_root)
+    with open(os.path.join(ref_root, programs[0]["main"]), "a") as fh:
+        fh.write(added)
+    for g in ("json", "go"):
+        o = os.path.join(inproc, "swapref_" + g.replace(":", "_"))
+        rc_, res = run_frugal(ref_root, programs[0]["main"], g, o, o)
+        n_eval += 1
+        if rc_ != 0:
+            raise RuntimeError("reference compile of changed content failed: %s" % res)
+        base[("swap", g)] = res
+        seq_jobs.append({"file": swap_main, "gen": g, "out": os.path.join(inproc, "swap1_" + g), "recurse": True,
+                         "cwd": work, "cleanup": True})
+        seq_keys.append(None)      # warm-up compile of the unchanged copy: not compared
+    first = True
+    for g in ("json", "go"):
+        j = {"file": swap_main, "gen": g, "out": os.path.join(inproc, "swap2_" + g), "recurse": True, "cwd": work,
+             "cleanup": True}
+        if first:
+            j["append_to"], j["append_text"] = swap_main, added
+            first = False
+        seq_jobs.append(j)
+        seq_keys.append(("swap", g))
     rc, out, err = vlib.sh([os.path.join(vlib.BIN, "vh_c19")], inp=(json.dumps({"op": "compile_seq", "jobs": seq_jobs}) + "\n").encode(),
                            timeout=900)
     if rc != 0:
@@ -443,10 +477,14 @@ def run(ctx, br):
     if seq.get("code", 0) != 0:
         raise RuntimeError("vh_c19 compile_seq: %s" % seq.get("msg"))
     glob_cases = []
+    def prog_of(key):
+        return programs[0] if key is None or key[0] == "swap" else programs[key[0]]
+
+    n_plain = len(full)
     for n, (key, jr, sj) in enumerate(zip(seq_keys, seq["results"], seq_jobs)):
-        if n in (0, 1, len(seq_jobs) // 2, len(seq_jobs) - 1) and jr.get("globals"):
+        if n in (0, 1, n_plain // 2, n_plain - 1) and jr.get("globals"):
             ghist = [[[os.path.dirname(j["file"]).encode(), j["gen"].encode(), j["out"].encode(), b".", 1 if j["recurse"] else 0],
-                     [f.encode() for f in sorted(programs[k[0]]["files"])]]
+                     [f.encode() for f in sorted(prog_of(k)["files"])]]
                     for j, k in zip(seq_jobs[:n + 1], seq_keys[:n + 1])]
             gl = jr["globals"]
             glob_cases.append(([7, ghist, [gl[0].encode(), gl[1].encode(), gl[2].encode(), gl[3].encode(),
@@ -455,17 +493,20 @@ def run(ctx, br):
                                 {"globals": gl, "n_compiles_before": n})))
     for key, jr, sj in zip(seq_keys, seq["results"], seq_jobs):
         n_eval += 1
+        if key is None:
+            continue
         if jr.get("code", 0) != 0:
             oracle_fail += 1
             ctx.violation("C19 oracle: compile inside a long-lived process fails where a fresh process succeeds",
-                          {"gen": key[1], "message": jr.get("msg"), "program": programs[key[0]]["files"], "jobs_before": seq_jobs[:seq_jobs.index(sj)][-3:]})
+                          {"gen": key[1], "message": jr.get("msg"), "program": prog_of(key)["files"], "jobs_before": seq_jobs[:seq_jobs.index(sj)][-3:]})
             continue
         d = diff_hashes(base[key], jr["files"])
         if d:
             oracle_fail += 1
             ctx.violation("C19 oracle: output of a compile that follows other compiles in the same process differs "
                           "from a fresh process (global state not reset)",
-                          {"gen": key[1], "differing_files": d[:10], "program": programs[key[0]]["files"],
+                          {"gen": key[1], "differing_files": d[:10], "program": prog_of(key)["files"],
+                           "content_changed_between_compiles": key[0] == "swap",
                            "sequence": [(j["gen"], j["recurse"], os.path.basename(os.path.dirname(j["file"]))) for j in seq_jobs[:seq_jobs.index(sj) + 1]][-6:]})
 
     # ---- correspondence: observations of the real compiler against the model --------------------
